@@ -7,17 +7,18 @@ namespace Theo
 
 /-- once `HALT` is reached, single steps and `execute` change nothing -/
 theorem C17_end_absorbing (vm : VM) (h : vm.isDone = .ok true) :
-    step vm = .ok (vm, true) ∧ ExecTo vm vm := by
-  sorry
+    step vm = .ok (vm, true) ∧ ExecTo vm vm :=
+  end_absorbing h
 
 /-- after any history, `reset` succeeds and yields *structurally* the freshly constructed machine -/
 theorem C17_reset_fresh (p : Program) (hs : SitesOK p) (vm : VM) (hr : Reach p vm) :
-    VM.reset p vm = .ok (VM.mk' p) := by
-  sorry
+    VM.reset p vm = .ok (VM.mk' p) :=
+  reset_fresh hs hr
 
 /-- hence every later history is literally a history of the fresh machine -/
 theorem C17_reset_history (p : Program) (hs : SitesOK p) (vm vm' : VM) (hr : Reach p vm)
     (hc : CallRel p vm .reset vm') : vm' = VM.mk' p := by
-  sorry
+  cases hc with
+  | reset h => rw [reset_fresh hs hr] at h; exact (Except.ok.inj h).symm
 
 end Theo
